@@ -779,6 +779,29 @@ func (c *Ctx) Guard(fn *ssa.Function, cond Cond, tgt Target, opt Opt) bool {
 				if MatchCond(want, s) && pos != sense {
 					c.Sites++
 					c.OK("K5", fnName, what, c.At(ret), "the verdict returned is the negation of the rejecting condition")
+					if opt.Entry || (len(opt.Under) == 0 && opt.From == "" && len(opt.Unless) == 0 && MustPass[c.Prop+"\t"+fnName+"\t"+fmt.Sprint(cond.Sense)+"\t"+cond.Canon]) {
+						// must-pass form: the exit that returns the decision plays the accepting edge; no OTHER exit that
+						// may answer `good` is reachable from the entry (unless over an alternative edge)
+						if c.MustPassUsed == nil {
+							c.MustPassUsed = map[string]bool{}
+						}
+						c.MustPassUsed[c.Prop+"\t"+fnName+"\t"+fmt.Sprint(cond.Sense)+"\t"+cond.Canon] = true
+						cut := union(c.unlessEdges(fn, fnName, opt.Unless), InfeasibleEdges(fn))
+						reached := ReachFrom([]*ssa.BasicBlock{fn.Blocks[0]}, cut)
+						var hit []string
+						for _, other := range Returns(fn) {
+							if other == ret || !reached[other.Block()] || !exitMayBeGood(other, vs, nil, reached) {
+								continue
+							}
+							hit = append(hit, c.At(other))
+						}
+						what2 := tgt.Name + " only through guard `" + cond.Canon + "`=" + fmt.Sprint(!cond.Sense) + " (from entry)"
+						if len(hit) > 0 {
+							c.Fail("K2", fnName, what2, hit[0], "another exit may answer good without the decision: "+strings.Join(uniq(hit), ", "))
+							return false
+						}
+						c.OK("K2", fnName, what2, "-", "the only exit that may answer good returns the decision itself")
+					}
 					return true
 				}
 			}
